@@ -13,6 +13,7 @@ import (
 	"time"
 
 	"github.com/go-git/go-git/v5"
+	"github.com/go-git/go-git/v5/plumbing"
 	"github.com/go-git/go-git/v5/plumbing/object"
 
 	"go.uber.org/thriftrw/internal/zzsim/progen"
@@ -156,14 +157,18 @@ func match(exp []progen.Diag, rs []*reported) (missed []string, extra []string) 
 }
 
 func commitAll(wt *git.Worktree, msg string, n int) error {
-	if err := wt.AddWithOptions(&git.AddOptions{All: true}); err != nil {
-		return err
-	}
-	_, err := wt.Commit(msg, &git.CommitOptions{
-		AllowEmptyCommits: true,
-		Author:            &object.Signature{Name: "sim", Email: "sim@example.com", When: time.Unix(1700000000+int64(n), 0).UTC()},
-	})
+	_, err := commitWith(wt, msg, n, nil)
 	return err
+}
+
+// commitWith commits the work tree at fixed time 1700000000+n, with the given parents
+// (nil: the current HEAD).
+func commitWith(wt *git.Worktree, msg string, n int, parents []plumbing.Hash) (plumbing.Hash, error) {
+	if err := wt.AddWithOptions(&git.AddOptions{All: true}); err != nil {
+		return plumbing.ZeroHash, err
+	}
+	sig := &object.Signature{Name: "sim", Email: "sim@example.com", When: time.Unix(1700000000+int64(n), 0).UTC()}
+	return wt.Commit(msg, &git.CommitOptions{AllowEmptyCommits: true, Author: sig, Committer: sig, Parents: parents})
 }
 
 func writeVersion(dir string, p *progen.Program) error {
@@ -331,13 +336,41 @@ func RunC20(cfg simrt.Config, o world.Opts) *world.Result {
 		if err := writeVersion(repo, before); err != nil {
 			panic(err)
 		}
-		if err := commitAll(wt, "before", 0); err != nil {
+		first, err := commitWith(wt, "before", 0, nil)
+		if err != nil {
 			panic(err)
+		}
+		var parents []plumbing.Hash
+		if simrt.Flip("c20.merge-commit", 0.15) {
+			// HEAD is a merge: its first parent is the previous version, its second parent a side
+			// branch committed later than the first parent. HEAD~ is still the first parent.
+			side := after
+			if ch("c20.side-branch", 2) == 1 {
+				side = before.Clone()
+				for i := 0; i < 6; i++ {
+					if e := side.ApplyEdit(true, true); e != nil {
+						break
+					}
+				}
+				if _, err := side.Dump(); err != nil {
+					side = after
+				}
+			}
+			if err := writeVersion(repo, side); err != nil {
+				panic(err)
+			}
+			second, err := commitWith(wt, "side branch", 5, []plumbing.Hash{first})
+			if err != nil {
+				panic(err)
+			}
+			parents = []plumbing.Hash{first, second}
+			res.Count("c20.merge-commits", 1)
+			logf("HEAD is a merge commit (first parent: the previous version; second parent: a side branch committed later)")
 		}
 		if err := writeVersion(repo, after); err != nil {
 			panic(err)
 		}
-		if err := commitAll(wt, "after", 1); err != nil {
+		if _, err := commitWith(wt, "after", 9, parents); err != nil {
 			panic(err)
 		}
 		// The verdict is about the two committed versions. Afterwards the work tree may hold
